@@ -11,12 +11,20 @@
   `fill_never_solver`); `rank_refusal_iff_total`, `triclinic_refusal_iff_total`, `fill_with_decided` are the statements
   without that hypothesis.
 
+  Section "the model is the source" (`fill_model_is_source_*`): the model's parameters ARE what `cij/util/fill.py` and
+  `cij/cli/fill.py` say on this run — `Generated/FillSpec.lean` is re-extracted from the source by `tools/gens/fill_src.py`
+  (symbol order, defaults, regexes, refusal tests and residual definition as expression trees, lookup test, equation
+  rule, stacking order, write-back key, drop rule, command-line wiring, call sites); the semantics of those trees are in
+  `Lemmas/FillSource.lean`.  Whatever the two functions contain besides is compared on the normalised ast by the
+  translator (a difference is a broken tie naming the statement).
+
   The model is the code of /repo a4e5038 (residuals always computed; only modulus columns dropped; empty relations
   still go through the rank test; `is_file` lookup): every clause below is a positive statement.
 -/
 import Mathlib.Analysis.Real.Sqrt
 import CijProofs.Lemmas.FillPerm
 import CijProofs.Lemmas.FillTotal
+import CijProofs.Lemmas.FillSource
 set_option linter.unusedSectionVars false
 namespace Cij.C09
 open Cij Cij.Fill
@@ -580,5 +588,190 @@ example : outcome (fill env0 (some "cubic") (P0 false false)
     of order and case -/
 example : outcome (fill env0 (some "cubic") (P0 false true) [("C12", [100]), ("c22", [300]), ("C11", [300])])
     = "ok:C12=100,c22=300,C11=300,c13=100,c23=100,c33=300" := by decide +kernel
+
+/-! #### the model is the source (`Generated/FillSpec.lean`, re-extracted from fill.py / cli/fill.py on every run) -/
+
+section source
+variable {α : Type} [Field α] [LinearOrder α] [IsStrictOrderedRing α]
+open Cij.FillSource Generated
+
+/-- **symbol order.**  The model's 21 symbols are the list obtained by evaluating the source's
+    `itertools.product(range(1,7), range(1,7)) if i <= j` comprehension, in that order; it is the order of the canonical
+    keys of the Voigt model (C10) and of `Generated.symbolPairs`, in which the Laue model (C08) and the translated
+    relation rows list the components. -/
+theorem fill_model_is_source_symbols :
+    symbolNames = Generated.fillSymbols ∧ nsym = Generated.fillSymbols.length ∧
+    Generated.fillSymbols = Cij.keys21.map (fun p => s!"c{p.1}{p.2}") ∧
+    Generated.fillSymbols = Generated.symbolPairs.map (fun p => s!"c{p.1}{p.2}") :=
+  ⟨symbols_are_source, nsym_is_source, symbols_are_keys21, symbols_are_symbolPairs⟩
+
+/-- **refusals.**  The model's decision stage IS the semantics of the two `if …: raise Warning(…)` tests as they stand
+    in the source (`rank < nsym and not ignore_rank`, then `numpy.any(residuals > residual_atol) and not ignore_residuals`):
+    operators, operands, the flag each test consults and their order are extracted as trees; evaluated on the model's
+    quantities they give the model's verdict — for every parameter setting, every solved record, and every value `rank`
+    that is `< nsym` exactly when the stacked matrix has a kernel.  (Swapping the flags, comparing with `≥`, testing a
+    mean or a sum of the residuals, or exchanging the two tests changes the tree and this statement fails.) -/
+theorem fill_model_is_source_refusals (P : Params α) (s : Solved α) (rank : Nat)
+    (hrank : rank < nsym ↔ s.rankDeficient = true) :
+    evalRefusals (refusalEnv P s rank) Generated.fillRefusals = some (verdict P s) :=
+  verdict_is_source P s rank hrank
+
+/-- … in the form of the two refusal conditions: rank refusal ⇔ the first extracted test evaluates to true; residual
+    refusal ⇔ the first is false and the second true -/
+theorem fill_model_is_source_refusal_iff (P : Params α) (s : Solved α) (rank : Nat)
+    (hrank : rank < nsym ↔ s.rankDeficient = true) :
+    ∃ t0 t1 m0 m1, Generated.fillRefusals = [(t0, m0), (t1, m1)] ∧
+      (verdict P s = .error .refuseRank ↔ evalBool (refusalEnv P s rank) t0 = some true) ∧
+      (verdict P s = .error .refuseResidual ↔
+        evalBool (refusalEnv P s rank) t0 = some false ∧ evalBool (refusalEnv P s rank) t1 = some true) := by
+  refine ⟨_, _, _, _, rfl, ?_, ?_⟩
+  · rw [verdict_refuseRank_iff]
+    have hc : ((rank : α) < (nsym : α)) ↔ s.rankDeficient = true := by rw [Nat.cast_lt]; exact hrank
+    simp only [evalBool, evalAtom, refusalEnv, evalCmp, bind, Option.bind, pure, Option.map]
+    cases hk : P.ignoreRank <;> simp [hc]
+  · rw [verdict_refuseResidual_iff]
+    have hc : ((rank : α) < (nsym : α)) ↔ s.rankDeficient = true := by rw [Nat.cast_lt]; exact hrank
+    simp only [evalBool, evalAtom, refusalEnv, evalCmp, bind, Option.bind, pure, Option.map, Solved.residuals]
+    cases hk : P.ignoreRank <;> cases hr : P.ignoreResiduals <;> cases hd : s.rankDeficient <;> simp [hc, hd]
+
+/-- **residuals.**  What the second test compares with `residual_atol` is the source's
+    `numpy.sum((a @ x - b) ** 2, axis=0)`: the extracted array expression, evaluated for a volume column, is the model's
+    `Σ (a·x − b)²`; and that is what the solve stage records per volume. -/
+theorem fill_model_is_source_residuals {A : List (List α)} {bs : List (List α)} {s : Solved α}
+    (hs : solveStage A bs = some s) :
+    s.residuals = List.zipWith (fun b x => sumSq (residualVec A b x)) bs s.xs ∧
+    ∀ b x : List α, evalArr (residualEnv A b x) Generated.fillResidualExpr = some (.scalar (sumSq (residualVec A b x))) :=
+  ⟨ssq_is_sum_of_squares hs, fun b x => residual_is_source A b x⟩
+
+/-- **lookup precedence.**  The relations come from the user's path exactly when the source's test
+    (`not Path(packaged).is_file() and Path(system).is_file()`, extracted as a tree) holds — the packaged name first, the
+    user's file only when no packaged file of that name exists; `Path(system).exists()` is not consulted. -/
+theorem fill_model_is_source_lookup (env : Env) (sys : String) :
+    ∃ useUser, evalBool (lookupEnv (α := α) env sys) Generated.fillLookupTest = some useUser ∧
+      resolve env sys =
+        if useUser then (match env.userFile sys with | some rows => .ok rows | none => .error .fileNotFound)
+        else packaged sys :=
+  resolve_is_source env sys
+
+/-- **equations.**  (i) For every packaged system the relation rows of the model are, as the rational rows handed to the
+    least squares and in order, what the source's rule (`parts = line.split("=")`, a row `parts[0] - part` for every
+    `part in parts[1:]`; separator, indices and sign extracted) makes of the file's lines part by part;
+    (ii) the stacked system is `[supplied rows; relation rows]` in the order of the tuples the source hands to
+    `numpy.concatenate`, for the matrix and for the right-hand sides, the relations' constants being the same at every
+    volume; (iii) a selector row is zero except for the extracted value (1) at the symbol's index. -/
+theorem fill_model_is_source_equations (sel : List Nat) (selCols : List (List α)) (rel : Rows) (k : Nat) :
+    (Generated.fillLineParts.map (·.1) = Generated.constraintSystems.map (·.1) ∧
+      ∀ e ∈ Generated.fillLineParts,
+        (match packaged e.1 with
+          | .ok rows => rows.map ratRow
+          | .error _ => []) =
+        (e.2.flatMap (lineRows Generated.fillEqnLhsIndex Generated.fillEqnRhsFrom Generated.fillEqnRhsSign)).map ratRow) ∧
+    stackA (α := α) sel rel = concatBy Generated.fillStackA (sel.map selectorRow) (rel.map castRow) ∧
+    stackB selCols rel k = concatBy Generated.fillStackB (selCols.map fun c => c.getD k 0)
+      (rel.map fun r => (Int.cast r.rhs : α) / (Int.cast (Int.ofNat r.den) : α)) ∧
+    (∀ i, selectorRow (α := α) i = (List.range Generated.fillSymbols.length).map fun j =>
+      if j = i then ((Generated.fillSelectorValue.1 : α) / (Generated.fillSelectorValue.2 : α)) else 0) :=
+  ⟨relation_rows_are_source, stack_is_source sel selCols rel k⟩
+
+/-- **columns.**  (i) A column is a component iff the source's regex (parsed from the literal; `re.search` semantics on
+    ASCII) finds a match in its LOWER-CASED name, and the lower-cased name is what is looked up among the symbols; the drop
+    loop uses the same regex, again on the lower-cased name.  (ii) A solved component is written to the first existing
+    column whose lower-cased name equals the symbol, else to a new column named by the symbol (`next(…, index)`, extracted).
+    (iii) A component column is dropped iff `numpy.allclose(col, 0, atol=drop_atol)` — extracted target 0, extracted
+    tolerance parameter `drop_atol` (not `residual_atol`), numpy's default `rtol` multiplying `|0|`. -/
+theorem fill_model_is_source_columns (P : Params α) (t : Table α) (xs : List (List α)) (names : List String)
+    (sym : String) (col : List α) (hsym : sym ∈ symbolNames) :
+    (∃ atoms, parseRegex Generated.fillRegexFit.toList = some atoms ∧
+      parseRegex Generated.fillRegexDrop.toList = some atoms ∧
+      recognise names = recogniseLower (if Generated.fillFitLowersFirst then names.map String.toLower else names) ∧
+      (∀ s : String, matchesCdd s.toList = search atoms s.toList) ∧
+      finish P t xs = (writeAll t xs).filter fun c =>
+        !(search atoms (if Generated.fillDropLowersFirst then c.1.toLower else c.1).toList &&
+          allcloseGeneric P.dropAtol (ratOf Generated.fillDropRtol) (ratOf Generated.fillDropTarget) c.2)) ∧
+    writeBack t sym col = setColumn t (chooseKey Generated.fillKeyCompare (t.map (·.1)) sym) col ∧
+    (paramValue P Generated.fillDropAtolParam).map (fun atol =>
+      allcloseGeneric atol (ratOf Generated.fillDropRtol) (ratOf Generated.fillDropTarget) col)
+      = some (allClose0 P.dropAtol col) := by
+  refine ⟨?_, writeBack_is_source t sym col (symbols_lower sym hsym), drop_is_source P col⟩
+  obtain ⟨atoms, h1, h2⟩ := finish_is_source P t xs
+  obtain ⟨atoms', h1', h2', h3'⟩ := recognise_is_source names
+  have hsame : atoms' = atoms := by
+    rw [regex_drop_is_regex_fit, h1'] at h1
+    exact Option.some.inj h1
+  subst hsame
+  exact ⟨atoms', h1', h1, h2', h3', h2⟩
+
+/-- **defaults.**  The signature's parameter names and order and the default of every keyword parameter
+    (`system=None, ignore_residuals=False, ignore_rank=False, drop_atol=1e-8, residual_atol=0.1`, as exact decimal
+    fractions) are those of `CijModel/FillCall.lean`, from which the driver fills absent keywords. -/
+theorem fill_model_is_source_defaults :
+    Generated.fillParams = FillCall.paramNames ∧
+    Generated.fillDefaults.map (·.1) = FillCall.paramNames.tail ∧
+    (lookupDefault "system" = some .none ∧ FillCall.defaultSystem = none) ∧
+    lookupDefault "ignore_residuals" = some (.bool FillCall.defaultParams.ignoreResiduals) ∧
+    lookupDefault "ignore_rank" = some (.bool FillCall.defaultParams.ignoreRank) ∧
+    (lookupDefault "drop_atol").bind defaultNum = some FillCall.defaultParams.dropAtol ∧
+    (lookupDefault "residual_atol").bind defaultNum = some FillCall.defaultParams.residualAtol :=
+  defaults_are_source
+
+/-- **command line and callers.**  Every `@click.option` of `cij fill` reaches `fill_cij` under the keyword named by its
+    own long flag (identity on names: `--ignore-rank` ↦ `ignore_rank`, … — options wired crosswise break this), that keyword
+    is a parameter of `fill_cij` and the option's default is the library's; the popped keyword is the file argument; the
+    table is printed without index.  Every call site of `fill_cij` in the package passes the table (and at most `system`)
+    by position and its settings by `**mapping` or under the same names with the library's defaults. -/
+theorem fill_model_is_source_cli :
+    ((∀ o ∈ Generated.cliOptions,
+        (o.decls.filter isLong).head?.map canonName = some o.kwarg ∧
+        o.kwarg ∈ Generated.fillParams.tail ∧
+        lookupDefault o.kwarg = some o.default) ∧
+      (Generated.cliOptions.map (·.kwarg)).Nodup ∧
+      Generated.cliPopped = Generated.cliArgument ∧
+      Generated.cliArgument ∉ Generated.fillParams ∧
+      Generated.cliArgument ∉ Generated.cliOptions.map (·.kwarg) ∧
+      Generated.cliPrintIndex = false) ∧
+    ∀ c ∈ Generated.fillCallSites, callSiteOk c = true :=
+  ⟨cli_is_source, callers_pass_through⟩
+
+/-- **re-emission.**  The line-level model of `cij fill` (`ElastDat.fillCmd`, C17) reads the count from the extracted field
+    of line 2 and sends the next `N + 1` lines (extracted offset) through read_table → fill_cij → to_string. -/
+theorem fill_model_is_source_cmd {Num : Type} (F P : NumFmt Num) (k : Nat)
+    (fill : ElastDat.Table Num → Option (ElastDat.Table Num)) (l1 l2 : Line) (rest : List Line) :
+    ElastDat.fillCmd F P k fill (l1 :: l2 :: rest) = (do
+      let n ← l2[Generated.cliCountField]? >>= Lex.parseInt
+      let cnt := (n + Generated.cliTableExtra).toNat
+      let t ← ElastDat.parseTable F (rest.take cnt)
+      let t' ← fill t
+      pure (l1 :: l2 :: (ElastDat.printTable P k t' ++ rest.drop cnt))) :=
+  fill_cmd_is_source F P k fill l1 l2 rest
+
+/-- **remaining literals.**  `numpy.linalg.lstsq(a, b, rcond=None)` — numpy's own machine-precision rank threshold, which the
+    model replaces by the exact rank (assumption 2 of the harness; measured on every case); the candidates of the write-back
+    key are the table's columns and the fallback is the symbol; a line is split at `=`; the command is `fill` and its file
+    argument must exist.  (Pins in theorem form: the model was written against exactly these.) -/
+theorem fill_model_is_source_literals :
+    Generated.fillLstsqRcond = none ∧ Generated.fillKeyCandidates = "columns" ∧ Generated.fillKeyFallback = "symbol" ∧
+    Generated.fillEqnSeparator = "=" ∧ Generated.cliCommand = "fill" ∧ Generated.cliArgumentMustExist = true := by
+  decide +kernel
+
+end source
+
+/-- non-vacuity of the source tie: the extracted tests evaluated over ℚ — a rank-deficient record (rank 20 < 21) with the
+    flag off is refused for rank; with `ignore_rank` the second test fires on a residual 1/2 > 1/10; with both flags
+    nothing fires -/
+example :
+    let s : Solved Rat := { rankDeficient := true, m := 3, xs := [], ssq := [0, mkRat 1 2] }
+    FillSource.evalRefusals (FillSource.refusalEnv (P0 false false) s 20) Generated.fillRefusals = some (.error .refuseRank) ∧
+    FillSource.evalRefusals (FillSource.refusalEnv (P0 false true) s 20) Generated.fillRefusals = some (.error .refuseResidual) ∧
+    FillSource.evalRefusals (FillSource.refusalEnv (P0 true true) s 20) Generated.fillRefusals = some (.ok ()) := by
+  decide +kernel
+
+/-- the extracted regex finds components anywhere in a name (`xc11`), not in `c1`; the extracted key rule picks the first
+    existing column spelled like the symbol in any case; the extracted residual tree on a 2×2 system -/
+example :
+    (FillSource.parseRegex Generated.fillRegexFit.toList).map (fun a => (FillSource.search a "xc11".toList,
+      FillSource.search a "c1".toList)) = some (true, false) ∧
+    FillSource.chooseKey Generated.fillKeyCompare ["V", "C12", "c12"] "c12" = "C12" ∧
+    FillSource.chooseKey Generated.fillKeyCompare ["V", "C11"] "c12" = "c12" := by
+  decide +kernel
 
 end Cij.C09
